@@ -245,6 +245,38 @@ def clause4(P, res):
         res.violated(rid, "notification-lists", "expected >= 1 to-be-sent notification list (admission eviction in the janitor), found none")
 
 
+def clause5(P, res):
+    rid = "C16-5"
+    res.rule(rid, "whoever can evict can notify: every JanitorContext that is built (background janitor, explicit and opportunistic maintenance, introspection flush) "
+                  "receives the cache's notification sender (a clone of shared.notification_sender), never a literal None — admission-driven and capacity evictions "
+                  "performed through a context without a sender are silent")
+    n = 0
+    for b in cl.cache_bodies(P):
+        for e in b.events:
+            if e.kind == "assign" and e.data["r"]["k"] == "agg" and e.data["r"]["adt"].endswith("JanitorContext") and "notification_sender" in e.data["r"]["fields"]:
+                n += 1
+                r = e.data["r"]
+                op = r["ops"][r["fields"].index("notification_sender")]
+                evs, args, _ = mir.operand_sources(b, op)
+                flows = "notification_sender" in b.path_of_operand(op)
+                for x in evs:
+                    if x.kind == "assign":
+                        pl = x.data["r"].get("p") if x.data["r"]["k"] in ("ref", "rawptr") else (mir.op_place(x.data["r"].get("o")) if x.data["r"]["k"] == "use" else None)
+                        if pl and "notification_sender" in b.path_of_place(pl):
+                            flows = True
+                        if not x.data["p"][1] and b.locals[x.data["p"][0]].get("name") == "notification_sender":
+                            flows = True     # the builder's own `let (notifier, notification_sender) = Notifier::spawn(..)`
+                    elif x.kind == "call" and any("notification_sender" in b.path_of_operand(a) for a in x.args):
+                        flows = True
+                key = f"{b.id}:JanitorContext"
+                if flows:
+                    res.holds(rid, key, "sender cloned from the shared state", where=e.loc)
+                else:
+                    res.violated(rid, key, f"the maintenance context built at {e.loc} carries no notification sender: evictions performed through it never reach the listener", where=e.loc)
+    if n < 4:
+        res.violated(rid, "context-sites", f"expected >= 4 JanitorContext constructions, found {n}")
+
+
 def run(P, ctx):
     res = Result("C16")
     res.extra["explanation"] = "Shapes of listener notification sites in fibre_cache: tied to a successful removal, right reason, exactly one per removal."
@@ -252,4 +284,5 @@ def run(P, ctx):
     clause2(P, res)
     clause3(P, res)
     clause4(P, res)
+    clause5(P, res)
     return res
